@@ -383,6 +383,8 @@ namespace {
   value_t fn_any(call_scope_t& args)
   {
     account_t& account(args.context<account_t>());
+    if (args.empty())
+      throw_(std::runtime_error, _("Too few arguments to function"));
     expr_t::ptr_op_t expr(args.get<expr_t::ptr_op_t>(0));
 
     foreach (post_t * p, account.posts) {
@@ -396,6 +398,8 @@ namespace {
   value_t fn_all(call_scope_t& args)
   {
     account_t& account(args.context<account_t>());
+    if (args.empty())
+      throw_(std::runtime_error, _("Too few arguments to function"));
     expr_t::ptr_op_t expr(args.get<expr_t::ptr_op_t>(0));
 
     foreach (post_t * p, account.posts) {
